@@ -325,7 +325,7 @@ pub fn single_cut_sweep(c: &mut Case) {
     for p in &pairs {
         p.encode(&mut payload);
     }
-    if payload.len() > 600 {
+    if payload.len() > 600 || (c.ctx.miri() && payload.len() > 330) {
         return;
     }
     let id = gen::gen_request_id(&mut c.rng);
@@ -358,13 +358,13 @@ pub fn single_cut_sweep(c: &mut Case) {
 
 pub fn run(ctx: &Ctx, evidence: Option<&PathBuf>) -> i32 {
     ctx.run_fixed("directed", ctx.dn(300), |c| run_case(c, c.index % 10 == 0, 3));
-    ctx.run_fixed("single-cut-directed", ctx.dn(20), single_cut_sweep);
-    let n = ctx.size(60_000, 6_000_000);
+    ctx.run_fixed("single-cut-directed", if ctx.miri() { 0 } else { ctx.dn(20) }, single_cut_sweep);
+    let n = ctx.size3(60_000, 6_000_000, 8);
     ctx.run_cases("preambles", n, |c| {
         let big = ctx.scale == Scale::Full && c.rng.chance(1, 40);
         run_case(c, big, 2);
     });
-    ctx.run_cases("single-cut", ctx.size(300, 30_000), single_cut_sweep);
+    ctx.run_cases("single-cut", ctx.size3(300, 30_000, 1), single_cut_sweep);
     for g in ["cut_in_name_len_4B", "cut_in_val_len_4B", "cut_in_name", "cut_in_value", "pair_spans_3plus_records", "cut_at_pair_boundary"] {
         ctx.gate(g, 10);
     }
